@@ -649,6 +649,10 @@ def while_loop_rules(chk, S):
     for m, node, arg in injectable:
         r7.ok(f"{m.name}.{getattr(node, 'name', '<lambda>')}({arg}=flow.while_loop)", "the loop is a parameter: a differentiable replacement can be supplied", f"{m.relpath}:{node.lineno}")
     for m, node, qual in direct:
+        if m.name.endswith(("solvers_via_adaptive_steps", "util.test_util")):
+            # the statement is about fixed grids: the adaptive drivers and the test helpers are not on a path a fixed-grid solve can take
+            r7.ok(f"{m.name}.{qual} calls flow.while_loop directly (adaptive driver / test helper)", "not on a path a fixed-grid solve can take", f"{m.relpath}:{node.lineno}")
+            continue
         r7.fail(f"{m.name}.{qual} calls flow.while_loop directly", f"{ast.unparse(node)[:160]}: a value-dependent trip count with no way to supply another loop -- jax.grad / jax.vjp through every caller raises "
                    "'Reverse-mode differentiation does not work for lax.while_loop'", f"{m.relpath}:{node.lineno}", {})
 
